@@ -92,7 +92,9 @@ theorem parseVwlb_eq_layout (dec : Dec) (d : Bytes) :
 
 theorem vwlbLoop_succ_eq_layout (dec : Dec) (d : Bytes) (mnidx n indx : Nat) :
     vwlbLoop dec d mnidx (n + 1) indx = readK .be d indx Gen.IdxLayouts.vwlbEntry fun
-      | [frame, nameStart, nameEnd] => (dec (slice d (mnidx + nameStart.toNat) (mnidx + nameEnd.toNat))).bind fun name =>
+      | [frame, nameStart, nameEnd] =>
+          if mnidx + nameEnd.toNat < mnidx + nameStart.toNat then .error .value else
+          (dec (slice d (mnidx + nameStart.toNat) (mnidx + nameEnd.toNat))).bind fun name =>
           (vwlbLoop dec d mnidx n (indx + 4)).bind fun rest => .ok (⟨name, frame⟩ :: rest)
       | _ => .error .other := by
   conv => lhs; rw [vwlbLoop]
